@@ -921,8 +921,9 @@ def spec_to_stokes_f64(c, self):
 class UFunc:
     """An arbitrary element-wise ufunc: uninterpreted element function of its inputs."""
 
-    def __init__(self, name, nin, nout, out_dtype="float64"):
+    def __init__(self, name, nin, nout, out_dtype="float64", signature=None):
         self.name, self.nin, self.nout, self.out_dtype = name, nin, nout, out_dtype
+        self.signature = signature       # core-dimension signature of a generalised ufunc (matmul, vecdot, ...)
 
 
 def ufunc_elem(uf, k, vals):
@@ -969,7 +970,7 @@ def install_ufunc_stub(interp):
 
     def value_getattr(v, name, ctx):
         if isinstance(v, UFunc):
-            if name in ("nin", "nout"):
+            if name in ("nin", "nout", "signature"):
                 return getattr(v, name)
             raise PyExc("AttributeError", name)
         return base_getattr(v, name, ctx)
@@ -1062,19 +1063,35 @@ def inst_ufunc():
         out.append(Instance(f"method={method}", build))
     def build(interp, ctx, nm):
         z = mk_signal(interp, ctx, "z", "BasebandSignal", nm=nm)
-        return (z, UFunc("matmul", 2, 1), "__call__", z, z), {}
+        return (z, UFunc("matmul", 2, 1, signature="(n?,k),(k,m?)->(n?,m?)"), "__call__", z, z), {}
     out.append(Instance("matmul", build))
+    def build(interp, ctx, nm):
+        z = mk_signal(interp, ctx, "z", "Signal", extra_rank=1, nm=nm)
+        return (z, UFunc("vecdot", 2, 1, signature="(n),(n)->()"), "__call__", z, z), {}
+    out.append(Instance("gufunc-vecdot", build))
+    # NumPy dispatches to the operand of the most derived class: `self` is the *second* operand here
+    for be in ("numpy", "dask"):
+        def build(interp, ctx, nm, be=be):
+            first = mk_signal(interp, ctx, "z", "Signal", extra_rank=1, backend=be, nm=nm)
+            shape = first.ghost["data"].shape
+            second = mk_signal(interp, ctx, "w", "RadioSignal", backend=be, has_t0=False, dims=dict(enumerate(shape)), nm=nm)
+            uf = UFunc("g21", 2, 1)
+            uf.concrete = None
+            return (second, uf, "__call__", first, second), {}
+        out.append(Instance(f"first=Signal,second=RadioSignal(self),{be}", build))
     return out
 
 
 def spec_array_ufunc(c, self, ufunc, method, *inputs, out=None, **kwargs):
     """Values are the ufunc of the underlying arrays; each output is the given out object when one
-    was given, else wrapped in the type and metadata of `self` (the operand NumPy dispatched to);
-    non-call methods and matmul are refused (NotImplemented -> TypeError in NumPy)."""
+    was given, else wrapped in the type and metadata of the *first signal operand* (statement; `self` is
+    merely the operand NumPy dispatched to, a subclass instance first); non-call methods and generalised
+    ufuncs such as matmul are refused (NotImplemented -> TypeError in NumPy)."""
     from pyvc.interp import NOTIMPL
-    if method != "__call__" or ufunc.name == "matmul":
+    if method != "__call__" or ufunc.signature is not None:
         return NOTIMPL
-    g = c.view(self)
+    first = next((i for i in inputs if isinstance(i, Obj)), self)
+    g = c.view(first)
     in_arr = [c.view(i).data if isinstance(i, Obj) else i for i in inputs]
     outs = out if out is not None else (None,) * ufunc.nout
     out_arr = [c.view(o).data if isinstance(o, Obj) else o for o in outs]
